@@ -80,6 +80,12 @@ class RWorld(World):
             return r
         if o.kind == "observer":
             self.log.append(("down", method, list(args)))
+            beh = getattr(self, "down_behaviour", None)
+            if beh is not None and method in ("on_error", "on_completed"):
+                # what the subscriber does with its terminal notification is its business: it may raise (the default on_error handler re-raises),
+                # and its auto-detaching wrapper disposes the subscription from inside this very call
+                self.down_behaviour = None
+                beh(it)
             return None
         if o.kind in ("lock", "logger"):
             return None
@@ -283,16 +289,43 @@ class ResHarness:
         ran_before = ctx.choose(2, "the action already ran") == 1
         flag_set(ran_before)
         w.log.clear()
-        if which == 0:
-            it.call(on_completed, [], {})
-            term = ("on_completed", None)
-        elif which == 1:
-            exc = SV(ctx.fresh("err", "val").t, "val", tag="exc")
-            it.call(on_error, [exc], {})
-            term = ("on_error", exc)
-        else:
-            it.call(it.get_attr(D, "dispose"), [], {})
-            term = None
+        # the subscriber's side of a terminal notification: it returns / it disposes the subscription from inside the call (what its auto-detaching
+        # wrapper does when the source ends after subscribe() returned) and returns / it does that and RAISES (no on_error handler: the default one
+        # re-raises).  "Exactly once after termination or disposal" is about all of them: whatever path runs the action, it runs once
+        down = ctx.choose(3, "the subscriber returns / disposes inside the terminal / disposes and raises") if which != 2 else 0
+        if down:
+            def beh(it_):
+                it_.call(it_.get_attr(D, "dispose"), [], {})
+                if down == 2:
+                    raise PyExc(SV(ctx.fresh("down_exc", "val").t, "val", tag="exc"))
+            w.down_behaviour = beh
+        escaped = False
+        try:
+            if which == 0:
+                it.call(on_completed, [], {})
+                term = ("on_completed", None)
+            elif which == 1:
+                exc = SV(ctx.fresh("err", "val").t, "val", tag="exc")
+                it.call(on_error, [exc], {})
+                term = ("on_error", exc)
+            else:
+                it.call(it.get_attr(D, "dispose"), [], {})
+                term = None
+        except PyExc:
+            if down != 2:
+                raise
+            escaped = True
+        finally:
+            w.down_behaviour = None
+        if down:
+            lab = ["on_completed", "on_error"][which]
+            calls = self.ev("call", action)
+            self.rec(ctx, uid + f"/{lab}/subscriber-{'disposes-and-raises' if down == 2 else 'disposes'}-inside-the-terminal/the-action-runs-exactly-once-in-all",
+                     len(calls) == (0 if ran_before else 1),
+                     detail=f"the action ran {len(calls)} time(s) (it had {'already' if ran_before else 'not'} run before); the subscriber's exception "
+                            f"{'escaped the handler' if escaped else 'did not escape'}")
+            self.rec(ctx, uid + f"/{lab}/subscriber-{'disposes-and-raises' if down == 2 else 'disposes'}-inside-the-terminal/marks-the-action-as-run", flag_get() is True)
+            return
         calls = self.ev("call", action)
         self.rec(ctx, uid + f"/{['on_completed', 'on_error', 'dispose'][which]}/runs-the-action-iff-it-has-not-run-yet", len(calls) == (0 if ran_before else 1))
         self.rec(ctx, uid + f"/{['on_completed', 'on_error', 'dispose'][which]}/marks-the-action-as-run", flag_get() is True)
